@@ -335,3 +335,262 @@ func TestC16Overlap(t *testing.T) {
 		}
 	}
 }
+
+// ---------------------------------------------------------------- concurrent
+
+// C16ConcurrentCase: N formations started at the same moment from ONE renter
+// wallet (store reads take Latency) against N hosts with separate managers and
+// pools.
+type C16ConcurrentCase struct {
+	N       int  `json:"n"`                // 2..4 simultaneous formations
+	Unconf  bool `json:"unconf,omitempty"` // the renter's funds are the outputs of a pooled sweep
+	Spare   int  `json:"spare,omitempty"`  // renter outputs beyond N (0..2)
+	Latency int  `json:"latencyMs"`        // wallet store read latency in ms (1..3)
+	Allow   int  `json:"allow"`
+}
+
+func runC16Concurrent(c C16ConcurrentCase, cs *kit.CaseStats) (err error) {
+	nHosts := 2 + mod(c.N-2, 3)
+	nOut := nHosts + mod(c.Spare, 3)
+	lat := time.Duration(1+mod(c.Latency-1, 3)) * time.Millisecond
+	n, g := rhpc.Network()
+	var closers []func()
+	defer func() {
+		for i := len(closers) - 1; i >= 0; i-- {
+			closers[i]()
+		}
+	}()
+	R, err := rhpc.NewPartyLatency("renter", c16RenterKey, n, g, lat)
+	if err != nil {
+		return fmt.Errorf("INFRA: %v", err)
+	}
+	closers = append(closers, R.Close)
+	I, err := rhpc.NewNode("independent", n, g)
+	if err != nil {
+		return fmt.Errorf("INFRA: %v", err)
+	}
+	hosts := make([]*overlapHost, nHosts)
+	nodes := []*rhpc.Node{R.Node, I}
+	for i := range hosts {
+		p, err := rhpc.NewParty(fmt.Sprintf("host%d", i+1), rhpc.Key(fmt.Sprintf("c16-conc-host-wallet-%d", i)), n, g)
+		if err != nil {
+			return fmt.Errorf("INFRA: %v", err)
+		}
+		closers = append(closers, p.Close)
+		h := &overlapHost{p: p, hw: &rhpc.RecWallet{Wallet: p.W}}
+		h.host = rhpc.NewRealHost(rhpc.Key(fmt.Sprintf("c16-conc-host-id-%d", i)), p.CM, h.hw, rhpc.DefaultSettings(p.Addr()))
+		closers = append(closers, h.host.Close)
+		hosts[i] = h
+		nodes = append(nodes, p.Node)
+	}
+	salt := uint64(0)
+	grow := func(cnt int, addr types.Address) error {
+		for i := 0; i < cnt; i++ {
+			salt++
+			b := rhpc.MineOn(nodes[0].CM.TipState(), addr, nil, salt)
+			for _, nd := range nodes {
+				if err := nd.CM.AddBlocks([]types.Block{b}); err != nil {
+					return fmt.Errorf("%s rejected harness block: %w", nd.Name, err)
+				}
+			}
+		}
+		return nil
+	}
+	for _, h := range hosts {
+		if err := grow(2, h.p.Addr()); err != nil {
+			return fmt.Errorf("INFRA: %v", err)
+		}
+	}
+	// block rewards shrink with the height, so the renter's outputs have
+	// distinct sizes and "largest first" selection is deterministic
+	if err := grow(nOut, R.Addr()); err != nil {
+		return fmt.Errorf("INFRA: %v", err)
+	}
+	if err := grow(int(n.MaturityDelay)+1, rhpc.VoidAddr); err != nil {
+		return fmt.Errorf("INFRA: %v", err)
+	}
+	if err := R.Sync(); err != nil {
+		return fmt.Errorf("INFRA: %v", err)
+	}
+	for _, h := range hosts {
+		if err := h.p.Sync(); err != nil {
+			return fmt.Errorf("INFRA: %v", err)
+		}
+		if err := h.host.Contractor.WaitTip(h.p.CM); err != nil {
+			return fmt.Errorf("INFRA: %v", err)
+		}
+	}
+	ctx, cancel := context.WithTimeout(context.Background(), c16Timeout)
+	defer cancel()
+	for _, h := range hosts {
+		if h.st, err = rhp4.RPCSettings(ctx, h.host.T); err != nil {
+			return fmt.Errorf("INFRA: settings: %v", err)
+		}
+		h.host.T.WaitIdle(10 * time.Second)
+	}
+	if c.Unconf {
+		// the same outputs, one pool generation later: a sweep that pays the
+		// renter nOut outputs of distinct sizes
+		tip := R.CM.TipState()
+		outs, err := R.W.SpendableOutputs()
+		if err != nil || len(outs) == 0 {
+			return fmt.Errorf("INFRA: renter has no outputs: %v", err)
+		}
+		var sweep types.V2Transaction
+		var sum types.Currency
+		for _, o := range outs {
+			sweep.SiacoinInputs = append(sweep.SiacoinInputs, types.V2SiacoinInput{Parent: o.Copy()})
+			sum = sum.Add(o.SiacoinOutput.Value)
+		}
+		sweep.MinerFee = types.Siacoins(1)
+		rest := sum.Sub(sweep.MinerFee)
+		unit := rest.Div64(uint64(nOut * (nOut + 1) / 2))
+		for i := 1; i <= nOut; i++ {
+			v := unit.Mul64(uint64(i))
+			if i == nOut {
+				v = rest
+			}
+			sweep.SiacoinOutputs = append(sweep.SiacoinOutputs, types.SiacoinOutput{Address: R.Addr(), Value: v})
+			rest = rest.Sub(v)
+		}
+		sh := tip.InputSigHash(sweep)
+		for i := range sweep.SiacoinInputs {
+			sweep.SiacoinInputs[i].SatisfiedPolicy = types.SatisfiedPolicy{Policy: R.W.SpendPolicy(), Signatures: []types.Signature{c16RenterKey.SignHash(sh)}}
+		}
+		if _, err := R.CM.AddV2PoolTransactions(R.CM.Tip(), []types.V2Transaction{sweep}); err != nil {
+			return fmt.Errorf("INFRA: renter pool rejected its sweep: %v", err)
+		}
+	}
+
+	signer := &rhpc.FundAndSign{W: R.W, PK: c16ContractKey}
+	res := make([]rhp4.RPCFormContractResult, nHosts)
+	errs := make([]error, nHosts)
+	start := make(chan struct{})
+	done := make(chan int, nHosts)
+	for i := range hosts {
+		i := i
+		go func() {
+			defer func() {
+				if r := recover(); r != nil {
+					errs[i] = fmt.Errorf("panic: %v", r)
+				}
+				done <- i
+			}()
+			<-start
+			h := hosts[i]
+			res[i], errs[i] = rhp4.RPCFormContract(ctx, h.host.T, R.CM, signer, R.CM.TipState(), h.st.Prices, h.host.Key.PublicKey(), h.st.WalletAddress, proto4.RPCFormContractParams{
+				RenterPublicKey: c16ContractKey.PublicKey(), RenterAddress: R.Addr(),
+				Allowance: types.Siacoins(uint32(20 + mod(c.Allow+13*i, 150))), Collateral: types.Siacoins(uint32(5 + 7*i)),
+				ProofHeight: h.p.CM.Tip().Height + 40,
+			})
+		}()
+	}
+	close(start)
+	for range hosts {
+		<-done
+	}
+	for _, h := range hosts {
+		if !h.host.T.WaitIdle(c16Timeout) {
+			cs.Inconclusive("watchdog")
+			return nil
+		}
+	}
+	if ctx.Err() != nil {
+		cs.Inconclusive("watchdog")
+		return nil
+	}
+	cs.Classf("simultaneous=%d", nHosts)
+	cs.Classf("renter-outputs=%d", nOut)
+	cs.Classf("unconfirmed=%v", c.Unconf)
+	cs.NonTrivial()
+
+	used := map[types.SiacoinOutputID]int{}
+	var okSets []rhp4.TransactionSet
+	for i, h := range hosts {
+		head := fmt.Sprintf("formation %d of %d started at the same moment from one renter wallet (store latency %v, %d renter outputs, unconfirmed=%v)", i+1, nHosts, lat, nOut, c.Unconf)
+		if errs[i] != nil {
+			// there is an output for every formation: nothing stands in its way
+			return fmt.Errorf("non-vacuity: %s failed: %v", head, errs[i])
+		}
+		if err := bothSigned(h.p.CM.TipState(), res[i].Contract.Revision); err != nil {
+			return fmt.Errorf("%s returned nil, but the returned contract is not fully signed: %v", head, err)
+		}
+		st, err := h.host.Contractor.Contract(res[i].Contract.ID)
+		if err != nil || !reflect.DeepEqual(st.Revision, res[i].Contract.Revision) {
+			return fmt.Errorf("%s returned nil, but its host does not hold the same contract (%v)", head, err)
+		}
+		okSets = append(okSets, res[i].FormationSet)
+		last := res[i].FormationSet.Transactions[len(res[i].FormationSet.Transactions)-1]
+		for _, in := range last.SiacoinInputs {
+			if in.Parent.SiacoinOutput.Address == R.Addr() {
+				used[in.Parent.ID]++
+				if used[in.Parent.ID] > 1 {
+					return fmt.Errorf("%s: it and another successful formation both spend the renter's output %v (value %v); every host recorded its contract, at most one of them can ever be confirmed", head, in.Parent.ID, in.Parent.SiacoinOutput.Value)
+				}
+			}
+		}
+	}
+	for i, set := range okSets {
+		if _, err := I.CM.AddV2PoolTransactions(set.Basis, set.Transactions); err != nil {
+			return fmt.Errorf("the returned set of formation %d of %d is rejected by an independent pool that already holds the other formations' sets: %v", i+1, len(okSets), err)
+		}
+	}
+	before := I.CM.Tip()
+	salt++
+	b := rhpc.MineOn(I.CM.TipState(), rhpc.VoidAddr, I.CM.V2PoolTransactions(), salt)
+	if err := I.CM.AddBlocks([]types.Block{b}); err != nil {
+		return fmt.Errorf("the block containing all formation sets is invalid: %v", err)
+	}
+	_, applied, err := I.CM.UpdatesSince(before, 10)
+	if err != nil || len(applied) != 1 {
+		return fmt.Errorf("HARNESS: UpdatesSince: %v", err)
+	}
+	created := map[types.FileContractID]bool{}
+	for _, d := range applied[0].V2FileContractElementDiffs() {
+		if d.Created {
+			created[d.V2FileContractElement.ID] = true
+		}
+	}
+	for i := range hosts {
+		if !created[res[i].Contract.ID] {
+			return fmt.Errorf("mined together, the formations do not all create their contract (formation %d missing)", i+1)
+		}
+	}
+	return nil
+}
+
+// TestC16Concurrent enumerates the simultaneous-formation scenario.
+func TestC16Concurrent(t *testing.T) {
+	d := kit.NewDirect(t, "C16", "N = 2..4 formations started at the same moment from one renter wallet (wallet store reads take 1..3 ms, renter outputs of distinct sizes, confirmed or the outputs of a pooled sweep) against N hosts with separate chain managers and pools. Schedule-independent oracle: every formation succeeds (there is an output for each), successful formations share no renter output, their sets are all accepted by one independent pool and confirm together", c16Assumptions...)
+	defer d.Done()
+	prop := kit.Prop[C16ConcurrentCase]{Run: runC16Concurrent}
+	if f := os.Getenv("VERIF_REPLAY"); f != "" {
+		for _, path := range strings.Split(f, ":") {
+			c, err := kit.LoadReplay[C16ConcurrentCase](path)
+			if err != nil {
+				t.Fatalf("INFRA cannot load replay %s: %v", path, err)
+			}
+			cs := &kit.CaseStats{}
+			if err := prop.SafeRun(c, cs); err != nil {
+				fmt.Printf("REPLAY-FAIL property=C16 file=%s\n%v\n", path, err)
+				t.Errorf("replay %s failed: %v", path, err)
+			} else {
+				fmt.Printf("REPLAY-OK property=C16 file=%s\n", path)
+			}
+		}
+		return
+	}
+	rounds := 2
+	if kit.Thorough() {
+		rounds = 8
+	}
+	for r := 0; r < rounds; r++ {
+		for nh := 2; nh <= 4; nh++ {
+			for _, unconf := range []bool{false, true} {
+				c := C16ConcurrentCase{N: nh, Unconf: unconf, Spare: (r + nh) % 3, Latency: 1 + (r+nh)%3, Allow: 17*r + 5*nh}
+				cs := &kit.CaseStats{}
+				d.Case(c, cs, prop.SafeRun(c, cs))
+			}
+		}
+	}
+}
